@@ -1,23 +1,24 @@
 #!/bin/bash
-# tools/verify_mutant.sh <dir-with-mutantN.diff+mutantN_demo.rs> <N>
+# tools/verify_mutant.sh <dir> <name>   (name = mutant4, benign1, ...; a bare number N means mutantN)
 # Confirms in a scratch worktree (outside /repo and /verif) that the change
 # compiles, keeps the 49 baseline tests passing, and that its demonstration
 # fails with it and passes without it.
 set -u
 dir="$1"; n="$2"
+case "$n" in [0-9]*) name="mutant$n" ;; *) name="$n" ;; esac
 W=/tmp/mutv
 if [ ! -d "$W" ]; then git -C /repo worktree add -q --detach "$W" HEAD || exit 2; fi
 cd "$W" || exit 2
 git checkout -q --detach "$(git -C /repo rev-parse HEAD)" 2>/dev/null
 git checkout -- . ; git clean -fdq -e target
 export CARGO_NET_OFFLINE=true
-git apply "$dir/mutant$n.diff" || { echo "verify: mutant$n.diff does not apply"; exit 2; }
+git apply "$dir/$name.diff" || { echo "verify: $name.diff does not apply"; exit 2; }
 base=$(cargo test --offline --lib 2>&1 | grep -E "^test result" | head -1)
-mkdir -p tests; cp "$dir/mutant${n}_demo.rs" tests/
-with=$(cargo test --offline --test "mutant${n}_demo" 2>&1 | grep -E "^test result|error(\[|:)" | head -2 | tr '\n' ' ')
+mkdir -p tests; cp "$dir/${name}_demo.rs" tests/
+with=$(cargo test --offline --test "${name}_demo" 2>&1 | grep -E "^test result|error(\[|:)" | head -2 | tr '\n' ' ')
 git checkout -- . 
-without=$(cargo test --offline --test "mutant${n}_demo" 2>&1 | grep -E "^test result|error(\[|:)" | head -2 | tr '\n' ' ')
+without=$(cargo test --offline --test "${name}_demo" 2>&1 | grep -E "^test result|error(\[|:)" | head -2 | tr '\n' ' ')
 git clean -fdq -e target
-echo "mutant$n: baseline-with-mutant: $base"
-echo "mutant$n: demo WITH mutant:    $with"
-echo "mutant$n: demo WITHOUT mutant: $without"
+echo "$name: baseline-with-mutant: $base"
+echo "$name: demo WITH mutant:    $with"
+echo "$name: demo WITHOUT mutant: $without"
